@@ -6,7 +6,7 @@ From AV.Spec Require Import WorldSpec.
 Arguments N.add : simpl never.
 Arguments N.sub : simpl never.
 Arguments N.mul : simpl never.
-From AV.Proofs Require Export WorldCore WorldSplice.
+From AV.Proofs Require Export WorldCore WorldSplice WorldRead.
 
 Lemma exec_refines_step c w st o r :
   cfg_wf c -> WRep c w st -> ufuse (wuw w) = None ->
@@ -14,7 +14,7 @@ Lemma exec_refines_step c w st o r :
   res_matches c w (exec c o w) r.
 Proof.
   intros Hwf HW Hfuse Hr Hadm.
-  destruct o; cbn [spec_step] in Hr; try discriminate.
+  destruct o; cbn [spec_step] in Hr; try discriminate; try exact (exec_look c w st _ r Hwf HW Hfuse Hr).
   - (* ONew *)
     cbn [admissible] in Hadm. cbn [exec].
     exact (exec_build c w st dst bk _ r HW Hfuse Hadm Hr).
@@ -177,6 +177,8 @@ Proof.
   unfold sp_splice in H'. rewrite N.eqb_refl in H'. cbn [negb] in H'. cbv zeta in H'.
   crush H'; cbn; split; lia.
 Qed.
+Lemma sp_look_nx c st nx o r : sp_look c st nx o = Some r -> nx <= s_nx r /\ s_out r < 100.
+Proof. unfold sp_look. intros H. crush H; cbn; split; lia. Qed.
 Lemma sp_new_nx c st nx dst bk r : sp_new c st nx dst bk = Some r -> nx <= s_nx r /\ s_out r < 100.
 Proof. unfold sp_new. intros H. crush H; cbn; split; lia. Qed.
 Lemma sp_clone_nx c st nx v dst r : sp_clone c st nx v dst = Some r -> nx <= s_nx r /\ s_out r < 100.
@@ -189,6 +191,7 @@ Proof.
     try (apply sp_capacity_nx in H; exact H);
     try (apply sp_drain_nx in H; exact H);
     try (apply sp_splice_nx in H; exact H);
+    try (apply sp_look_nx in H; exact H);
     try (apply sp_take_nx in H; exact H);
     try (destruct (fresh_src s); [apply sp_offer_nx in H; exact H|discriminate]);
     crush H; cbn; split; lia.
@@ -475,7 +478,11 @@ Definition ex_ops : list op :=
     OSplice Erased 7 (BIncluded 1) BUnbounded [(false, KDrop)] FinForget RWrap 1 None 1; (* leaked *)
     ONew 8 (BStackN 2 8); OPush Erased 8 SWrap;
     OSplice Erased 8 (BIncluded 0) (BExcluded 0) [] FinDrop RWrap 2 None 2;             (* beyond the fixed capacity: panics *)
-    OSplice Erased 8 (BIncluded 0) (BExcluded 0) [] FinDrop RBox 2 None 2 ].
+    OSplice Erased 8 (BIncluded 0) (BExcluded 0) [] FinDrop RBox 2 None 2;
+    OPush Erased 7 SWrap; OPush Erased 7 SWrap;
+    OIter IRef 7 [true; false; true; true; false]; OIterNth IMut 7 [(true, 1); (false, 0); (false, 3)];
+    OIterClone ITypedRef 7 [true] [false; true; true]; ORead 0 7 1; ORead 3 7 9;
+    OProbeTypes 7 0; OSwapWrong 7 2; OSwapWrong 7 3; OPlacement ].
 
 Example ex_spec_defined : exists rs, spec_run ex_cfg [] 1 ex_ops = Some rs /\ length rs = length ex_ops.
 Proof. eexists. split; [vm_compute; reflexivity|reflexivity]. Qed.
@@ -494,7 +501,10 @@ Example ex_outcomes :
      (0,0,[3; 1; 10; 2; 10; 1; 12; 1; 1; 11; 0; 11]); (2,4,[]); (2,5,[]);
      (0,0,[2; 1; 9; 1; 1; 13; 0; 13; 0; 0; 0; 0; 0; 0]); (0,0,[]);
      (0,0,[]); (0,0,[]); (0,0,[]); (0,0,[]); (0,0,[1; 1; 21; 0; 21]); (0,0,[1]); (2,4,[]); (0,0,[2; 1; 22; 1]);
-     (0,0,[]); (0,0,[]); (2,3,[]); (0,0,[0])].
+     (0,0,[]); (0,0,[]); (2,3,[]); (0,0,[0]);
+     (0,0,[]); (0,0,[]); (0,0,[3; 1; 23; 2; 1; 34; 1; 1; 33; 0; 0; 0; 0; 0; 0; 0]); (0,0,[3; 1; 33; 1; 1; 34; 0; 0; 0; 0]);
+     (0,0,[3; 1; 23; 2; 2; 1; 34; 1; 1; 33; 0; 0; 0; 0; 2; 1; 34; 1; 1; 33; 0; 0; 0; 0]); (0,0,[33; 1; 3]); (1,0,[]);
+     (0,0,[1; 0; 1; 0; 1; 3; 1; 1; 3; 1; 0; 1; 0; 1; 0]); (2,2,[]); (2,1,[]); (0,0,[0])].
 Proof. vm_compute. reflexivity. Qed.
 
 (** ** Corollaries in the vocabulary of the properties *)
